@@ -252,6 +252,23 @@ def ftp_listing_classes():
     c['ls_unix_no_size'] = b'-rw-r--r-- Jan 01  2020 a.txt\r\n'
     c['ls_unix_no_date'] = b'-rw-r--r-- 1 ftp ftp 10 a.txt\r\n'
     c['ls_msdos_bad_date'] = b'99-99-99  99:99PM <DIR> x\r\n01-01-20  10:00AM <DIR> y\r\n'
+    # machine listings (MLSD, RFC 3659): facts of every odd shape; a row that cannot be converted is kept raw
+    ok = b'type=file;size=3;modify=20200101000000; a.txt\r\n'
+    c['ml_ok'] = ok + b'type=dir;modify=20200101000000; d\r\ntype=cdir; .\r\ntype=pdir; ..\r\n'
+    c['ml_fraction_short'] = b'type=file;size=3;modify=20240102030405.5; a.txt\r\n'
+    c['ml_fraction_7'] = b'type=file;size=3;modify=20240102030405.1234567; a.txt\r\n'
+    c['ml_fraction_long'] = b'type=file;size=12;modify=20240102030405.12345678901; a.txt\r\n' + ok
+    c['ml_fraction_huge'] = b'type=file;modify=20240102030405.' + b'9' * 5000 + b'; a.txt\r\n'
+    c['ml_bad_date'] = b'type=file;modify=99999999999999; a.txt\r\ntype=file;modify=2020; b.txt\r\ntype=file;modify=00000000000000; c.txt\r\n'
+    c['ml_date_nondigit'] = b'type=file;modify=2020010100000x; a.txt\r\ntype=file;modify=\xff\xfe; b.txt\r\n'
+    c['ml_size_garbage'] = b'type=file;size=abc; a.txt\r\ntype=file;size=-1; b.txt\r\ntype=file;size=1e3; c.txt\r\ntype=file;size=; d.txt\r\n'
+    c['ml_size_huge'] = b'type=file;size=' + b'9' * 6000 + b'; a.txt\r\n'
+    c['ml_no_name'] = b'type=file;size=3;\r\ntype=file;size=3\r\n;;;\r\n=;=; x\r\n'
+    c['ml_binary'] = bytes(range(256)) * 4
+    c['ml_names_weird'] = (b'type=file; a\x00b\xff.txt\r\ntype=file; http://[\r\ntype=file; ../../up\r\ntype=dir; .\r\n'
+                           b'type=file;  \r\ntype=OS.unix=slink:/etc/passwd; link\r\n')
+    c['ml_dup_facts'] = b'type=file;type=dir;size=1;size=2;Type=FILE;SIZE=x; a.txt\r\n'
+    c['ml_empty'] = b''
     return c
 
 
